@@ -1,5 +1,5 @@
 ID = 'C06'
-CUTS = [r'^_ZN5phosg13string_printfB5cxx11EPKcz$']
+CUTS = [r'^_ZN5phosg13string_printfB5cxx11EPKcz$', r'^_ZN5phosg8io_errorC[12]Ei$']
 UNITS = {'img': dict(wrap='wrap.cc', shim=True, new_block=128, per_harness={'h_ppm.c': {'new_block': 320}}, cxxflags=['-U_FORTIFY_SOURCE', '-D_FORTIFY_SOURCE=0'], cuts=CUTS, gen_defs=['VERIF_EXC_POOL=4'])}
 BOUNDS = ''
 STUBS = []
@@ -42,7 +42,7 @@ def queries(tier):
                     desc='%s, %dx%d, alpha=%d, %d-bit samples, %s: exception or identical' % (('colour PPM/PAM save: file == canonical Netpbm header + raw samples', 'grayscale PPM/PAM input: (g,g,g[,a]) expansion, memory safety', 'colour PPM/PAM load of the canonical file: identity')[mode], W, H, A, CW, 'every prefix that ends inside the samples (symbolic)' if tlen is None else 'prefix of %d bytes (inside the header)' % tlen),
                     bounds='image %dx%d, all sample bytes, every truncation length' % (W, H))
     if tier == 'quick':
-        qs += [ppm(0, 2, 2, 0, 8), ppm(2, 2, 2, 0, 8), ppm(2, 2, 2, 0, 8, 5), ppm(2, 2, 2, 0, 8, 999), ppm(2, 1, 2, 0, 16), ppm(2, 2, 1, 0, 64), ppm(2, 2, 1, 0, 64, 27), ppm(1, 2, 2, 0, 8), ppm(1, 1, 2, 0, 16)]
+        qs += [ppm(0, 2, 2, 0, 8), ppm(2, 2, 2, 0, 8), ppm(2, 2, 2, 0, 8, 5), ppm(2, 2, 2, 0, 8, 999), ppm(2, 2, 2, 0, 8, 10), ppm(2, 2, 2, 0, 8, 11), ppm(2, 2, 2, 0, 8, 14), ppm(2, 1, 2, 0, 16), ppm(2, 2, 1, 0, 64), ppm(2, 2, 1, 0, 64, 27), ppm(1, 2, 2, 0, 8), ppm(1, 1, 2, 0, 16)]
     if tier == 'quick':
         qs += [bmpvar(2, 2, 24, 0, 0, 40), bmpvar(3, 2, 24, 0, 1, 40), bmpvar(2, 2, 32, 0, 0, 40), bmpvar(2, 2, 32, 3, 0, 124, 2), bmpvar(1, 2, 32, 3, 1, 108)]
     if tier == 'quick':
